@@ -97,7 +97,10 @@ def run(ctx):
         "1 tick = 150 ms, W = proxy.shutdownwait = 4 ticks = 600 ms, slack = 2 s: Shutdown must return within 2.6 s; short work = 150 ms (4x below W), long = 6 s (10x above), never-ending work ends with the scenario",
         "work that ends just within the wait ('edge'): scenarios that carry it run with 1 tick = 500 ms (W = 2 s); the work ends at the absolute moment shutdown start + W - 75 ms; it must complete; an incomplete item is a violation only if the client saw it end earlier than W - 25 ms after the start (a later cut may be the deadline itself), otherwise it is counted as skipped",
         "a signal during start-up: proxy.serve is taken apart by the harness (server put into the registry; handed its listener 50 ms after Shutdown was called) for http, https, tcp, tcp+sni, tcp+tls and grpc; the tcpproxy-based https+tcp+sni listener and moments inside ListenTCP are not covered",
-        "stalled connections ('stall'): the client connects and sends nothing, or half of a real TLS ClientHello (TLS-terminating kinds), 30 ms before Shutdown is called; nothing is asserted about them except that they do not delay the return",
+        "stalled connections: the client connects and sends nothing (stall0), half of its first protocol message (stall1: TLS ClientHello, HTTP/2 preface, HTTP request head, tunnel line) or that message and nothing after it (stall2: ClientHello without the rest of the handshake, preface without SETTINGS), 30 ms before Shutdown is called; nothing is asserted about them except that they do not delay the return",
+        "a listener closed at run time: kind tcp-dyn = what main's refresh loop starts for a port of a proto=tcp-dynamic listener with a cert source (ListenAndServeTCP + tcp.DynamicProxy + TLS); 'reset' work = a TLS tunnel whose client connection is reset (SO_LINGER 0) once the upstream has the request, the upstream keeps its side open; proxy.CloseProxy(addr) is called before Shutdown as the loop does when the route of the port goes; nothing is asserted about work on a listener closed that way",
+        "a further signal while the shutdown is under way: in the package harness a second proxy.Shutdown call; in the built binary (now also in quick) SIGTERM followed 0.1 s later by SIGHUP / SIGTERM / SIGINT (seed picks one, thorough all three) with a 0.3 s request in flight and proxy.shutdownwait = 1 s: the request must complete and the process must exit by itself (exit code >= 0)",
+        "the harness never blocks on fabio's own registry lock (TryLock with a 3 s limit): a lock left behind makes the shutdown that follows a bounded-return violation and ends the run",
         "besides the served-connection probe at +100 ms, a plain TCP connect at W/2 and at 0.9 W after the start must be refused for every listener (every listener of fabio closes its socket first; being accepted and dropped later is only tolerated at +100 ms)",
         "one listener per kind in a configuration ({http, https, tcp, tcp+sni, grpc, https+tcp+sni}; 'k~2' = a second listener on the same port of 127.0.0.2), <=2 work items per listener, all in flight (first answer bytes received by the client; for a half-closed tunnel: the upstream has seen the client's EOF) before Shutdown is called",
         "when Shutdown has returned the harness closes every server, as the process exit does in fabio's main: work a listener was not waited for is cut there",
@@ -116,7 +119,12 @@ def run(ctx):
     sink4 = os.path.join(ctx.tmp, "c18.edge")
     sink5 = os.path.join(ctx.tmp, "c18.simedge")
     sink6 = os.path.join(ctx.tmp, "c18.late")
+    sink7 = os.path.join(ctx.tmp, "c18.dyn")
     jobs = [
+        # a listener closed at run time (proxy.CloseProxy: the route of a tcp-dynamic port went) with a tunnel on it
+        # whose client connection was reset; later the shutdown; and a further signal while it is under way
+        ("gen_dyn", dict(cfg_text=cfg(spec="GenSpec", ms=2, mi=ctx.pick(1, 2), st=1, ko="MCKindOrderDyn", do="MCDurOrderDyn", dyn="MCDynKinds", sig=1),
+                         json_sink=sink7, workers=2, timeout=ctx.pick(300, 900))),
         # a signal during start-up: servers that are in the registry but have not been handed their listener yet
         ("gen_late", dict(cfg_text=cfg(spec="GenSpec", ms=2, mi=1, st=1, late="MCLateKinds"), json_sink=sink6, workers=2, timeout=ctx.pick(300, 900))),
         ("gen_edge", dict(cfg_text=cfg(spec="GenSpec", ms=2, mi=ctx.pick(1, 2), st=1, do="MCDurOrderEdge"), json_sink=sink4, workers=4, timeout=ctx.pick(300, 1500))),
@@ -129,6 +137,7 @@ def run(ctx):
     if ctx.thorough:
         jobs.append(("mc3", dict(cfg_text=cfg(ms=3, st=1, ko="MCKindOrder4"), workers=4, timeout=1500)))
         jobs.append(("mc_deviation_late", dict(cfg_text=cfg(ms=1, mi=1, late="MCLateKinds", leak="TRUE"), workers=2, timeout=300)))
+        jobs.append(("mc_deviation_signal", dict(cfg_text=cfg(ms=1, sig=1, kill="TRUE"), workers=2, timeout=300)))
     results = {}
 
     def tlc_job(name, kw):
@@ -158,6 +167,10 @@ def run(ctx):
             if r.violated != "NoAcceptAfterStart":
                 ctx.inconclusive("model self-test: LateListenerLeaks=TRUE should violate NoAcceptAfterStart, got %r %r" % (r.violated, r.error))
                 return
+        elif name == "mc_deviation_signal":
+            if r.violated != "ShortCompletes":
+                ctx.inconclusive("model self-test: SecondSignalKills=TRUE should violate ShortCompletes, got %r %r" % (r.violated, r.error))
+                return
         elif name in ("sim", "sim_edge"):
             if r.error or r.violated or r.timed_out:
                 ctx.need_tlc_ok(r, "Shutdown simulation")
@@ -179,8 +192,8 @@ def run(ctx):
             and any(i["dur"] == "short" and i["at"] == s["tstart"] for i in s["items"])
             and (set(s["kinds"]) - {i["srv"] for i in s["items"]}) & {"http", "https", "grpc"}]
     mute = [s for s in small if any(i["dur"] == "mute" for i in s["items"])]
-    chosen = (stratified(small, ctx.pick(9, 220), rnd) + stratified(big, ctx.pick(2, 40), rnd) + stratified(idle, ctx.pick(3, 18), rnd)
-              + stratified(mute, ctx.pick(2, 12), rnd) + stratified(twins, ctx.pick(3, 24), rnd))
+    chosen = (stratified(small, ctx.pick(6, 220), rnd) + stratified(big, ctx.pick(2, 40), rnd) + stratified(idle, ctx.pick(2, 18), rnd)
+              + stratified(mute, ctx.pick(2, 12), rnd) + stratified(twins, ctx.pick(2, 24), rnd))
     # (d) work that ends just within the wait, on every kind; (e) connections that never get as far as a
     # request (silent, or stuck in the middle of the TLS ClientHello), on every kind -- fewest scenarios
     # that cover all kinds first, then a stratified slice
@@ -200,7 +213,11 @@ def run(ctx):
             todo -= {i["srv"] for i in best["items"] if i["dur"] == dur}
         return out, todo
     edge_cover, edge_missing = cover_kinds("edge", True)
-    stall_cover, stall_missing = cover_kinds("stall", False)
+    stall_cover, stall_missing = [], set()
+    for cls in ("stall0", "stall1", "stall2"):      # nothing sent / part of the first message / the first message and no more
+        c, m = cover_kinds(cls, False)
+        stall_cover += [x for x in c if x not in stall_cover]
+        stall_missing |= m
     if edge_missing or stall_missing:
         ctx.inconclusive("the generator produced no edge / stalled-connection work for %s" % sorted(edge_missing | stall_missing))
         return
@@ -219,8 +236,23 @@ def run(ctx):
         return
     if ctx.thorough:
         late_cover += stratified(lates, 16, rnd)
+    # (g) a listener closed at run time with a reset tunnel on it, other listeners with short work, a second signal
+    dyns = sorted(read(sink7), key=lambda x: json.dumps(x, sort_keys=True))
+    rnd.shuffle(dyns)
+
+    def dyn_score(sc):
+        reset = any(i["dur"] == "reset" and i["srv"] in sc["removed"] for i in sc["items"])
+        other_short = any(i["dur"] == "short" and i["srv"] not in sc["removed"] and i["at"] == sc["tstart"] for i in sc["items"])
+        return (bool(sc["removed"]) and reset, other_short, sc["signals"] > 0, len(sc["kinds"]))
+    dyns.sort(key=dyn_score, reverse=True)
+    dyn_cover = dyns[:ctx.pick(1, 6)]
+    if not dyn_cover or dyn_score(dyn_cover[0])[:3] != (True, True, True):
+        ctx.inconclusive("the generator produced no scenario with a listener closed at run time, a reset tunnel, short work elsewhere and a second signal")
+        return
+    if ctx.thorough:
+        dyn_cover += stratified([d for d in dyns if d["removed"] or d["signals"]], 14, rnd)
     small_edge = [s for s in read(sink4) if s["items"]]
-    chosen += edge_cover + stall_cover + late_cover + stratified(small_edge, ctx.pick(1, 40), rnd)
+    chosen += edge_cover + stall_cover + late_cover + dyn_cover + stratified(small_edge, ctx.pick(1, 40), rnd)
     if not idle or not mute or not twins:
         ctx.inconclusive("the generator produced no idle-listener / half-closed-tunnel / shared-port scenario")
         return
@@ -260,11 +292,13 @@ def run(ctx):
     if s["asserted"] == 0 or s["skipped"] > s["asserted"]:
         ctx.inconclusive("machine too slow for the timing assumptions: %d short items asserted, %d skipped" % (s["asserted"], s["skipped"]))
     if s["selftests"] != 2 or s["selftests_rejected"] != 2:
-        ctx.inconclusive("binding self-test: %d of 2 corrupted scenarios were rejected by the harness" % s["selftests_rejected"])
+        ctx.inconclusive("binding self-test: %d of 2 corrupted scenarios were rejected by the harness (first: %s)"
+                         % (s["selftests_rejected"], json.dumps(r.of_kind("selftest"))[:600]))
+    if s.get("registry_dead") or s.get("not_played"):
+        ctx.inconclusive("fabio left its registry of servers locked (reported above where it happened): %d scenarios could not be played" % s.get("not_played", 0))
     if s.get("registry_left"):
         ctx.inconclusive("harness left %d servers in the registry" % s["registry_left"])
-    if ctx.thorough:
-        binary(ctx)
+    binary(ctx)
 
 
 # ---------------------------------------------------------------------------------------------------
@@ -279,17 +313,27 @@ def free_port():
     return p
 
 
+SECOND_SIGNALS = [("SIGHUP", signal.SIGHUP), ("SIGTERM", signal.SIGTERM), ("SIGINT", signal.SIGINT)]
+
+
 def binary(ctx):
-    """Up to three attempts: on a busy machine a port picked as free may be taken before fabio binds it."""
-    why = ""
-    for _ in range(3):
-        why = binary_once(ctx)
-        if not why:
+    """The built binary: SIGTERM with work in flight, and a second signal while the shutdown is under way (the
+    Signal action of the specification; SIGHUP is documented as ignored, shutting down is idempotent).  Quick: one
+    second signal chosen by the seed; thorough: all three.  Up to three attempts each: on a busy machine a port
+    picked as free may be taken before fabio binds it."""
+    sigs = SECOND_SIGNALS if ctx.thorough else [SECOND_SIGNALS[ctx.seed % 3]]
+    for name, sig in sigs:
+        why = ""
+        for _ in range(3):
+            why = binary_once(ctx, name, sig)
+            if not why:
+                break
+        if why:
+            ctx.inconclusive(why)
             return
-    ctx.inconclusive(why)
 
 
-def binary_once(ctx):
+def binary_once(ctx, signame, second):
     gobin, genv = vf.go_tool()
     exe = os.path.join(ctx.tmp, "fabio-c18")
     b = subprocess.run([gobin, "build", "-o", exe, "."], cwd=vf.REPO, env=genv, capture_output=True, text=True, timeout=600)
@@ -306,6 +350,20 @@ def binary_once(ctx):
 
     import threading
 
+    short_s = 0.3                       # work that finishes well within the wait (3.3x below it)
+    short_end = []
+
+    def serve_one(c):
+        try:
+            req = c.recv(4096)
+            c.sendall(b"HTTP/1.1 200 OK\r\nTransfer-Encoding: chunked\r\n\r\n6\r\nstart\n\r\n")
+            if b"/short" in req:
+                time.sleep(short_s)
+                c.sendall(b"5\r\ndone\n\r\n0\r\n\r\n")
+                short_end.append(time.time())
+        except OSError:
+            short_end.append(time.time())
+
     def upstream():
         while True:
             try:
@@ -313,11 +371,7 @@ def binary_once(ctx):
             except OSError:
                 return
             held.append(c)
-            try:
-                c.recv(4096)
-                c.sendall(b"HTTP/1.1 200 OK\r\nTransfer-Encoding: chunked\r\n\r\n6\r\nstart\n\r\n")
-            except OSError:
-                pass
+            threading.Thread(target=serve_one, args=(c,), daemon=True).start()
     threading.Thread(target=upstream, daemon=True).start()
     hp, tp, ui, dp = free_port(), free_port(), free_port(), free_port()
     wait_s = 1.0
@@ -359,9 +413,32 @@ def binary_once(ctx):
                 break
             except OSError:
                 time.sleep(0.05)
+        # a request that is in flight when the signal comes and finishes well within the wait
+        short = {"data": b"", "started": threading.Event(), "done": threading.Event()}
+
+        def short_client():
+            try:
+                c = socket.create_connection(("127.0.0.1", hp), timeout=2)
+                c.sendall(b"GET /short HTTP/1.1\r\nHost: x\r\n\r\n")
+                c.settimeout(wait_s + 5)
+                while not short["data"].endswith(b"0\r\n\r\n"):
+                    d = c.recv(4096)
+                    if not d:
+                        break
+                    short["data"] += d
+                    if b"start" in short["data"]:
+                        short["started"].set()
+            except OSError:
+                pass
+            short["done"].set()
+        threading.Thread(target=short_client, daemon=True).start()
+        if not short["started"].wait(5):
+            return "binary part: the short request did not get in flight"
         t0 = time.time()
         p.send_signal(signal.SIGTERM)
         time.sleep(0.1)
+        if p.poll() is None:
+            p.send_signal(second)       # shutting down is idempotent; SIGHUP is ignored
         refused = 0
         for port in (hp, tp):
             try:
@@ -389,8 +466,18 @@ def binary_once(ctx):
         try:
             p.wait(timeout=bound - (time.time() - t0))
             took = time.time() - t0
-            ctx.log("binary: SIGTERM with a never-ending request and tunnel in flight: exit after %.2fs (wait %.1fs), %d of 2 late connections refused"
-                    % (took, wait_s, refused))
+            ctx.log("binary: SIGTERM, then %s 0.1s later, with a never-ending request and tunnel and a %.1fs request in flight: exit code %s after %.2fs (wait %.1fs), %d of 2 late connections refused"
+                    % (signame, short_s, p.returncode, took, wait_s, refused))
+            short["done"].wait(2)
+            complete = b"done" in short["data"] and short["data"].endswith(b"0\r\n\r\n")
+            if p.returncode is not None and p.returncode < 0:
+                ctx.violation({"clause": "second-signal", "sub": "binary", "signal": signame},
+                              "fabio binary: %s during the shutdown killed the process (signal %d) %.2fs after SIGTERM; proxy.shutdownwait=%.1fs"
+                              % (signame, -p.returncode, took, wait_s), replay={"sub": "binary", "case": {"args": args[1:], "second": signame}})
+            if not complete and short_end and short_end[0] <= t0 + wait_s / 2:
+                ctx.violation({"clause": "short-cut", "sub": "binary", "signal": signame},
+                              "fabio binary: a request in flight at SIGTERM whose upstream finished %.2fs after it (proxy.shutdownwait=%.1fs) did not complete; a %s had followed 0.1s after the SIGTERM; process exit %s after %.2fs"
+                              % (short_end[0] - t0, wait_s, signame, p.returncode, took), replay={"sub": "binary", "case": {"args": args[1:], "second": signame}})
         except subprocess.TimeoutExpired:
             took = time.time() - t0
             ctx.violation({"clause": "bounded-return", "sub": "binary"},
@@ -406,7 +493,7 @@ def binary_once(ctx):
             ctx.violation({"clause": "accept-after-start", "sub": "binary"},
                           "fabio binary: %d of 2 connections made 100 ms after SIGTERM were served" % (2 - refused),
                           replay={"sub": "binary", "case": {"args": args[1:]}})
-        ctx.cover("binary", evaluations=3, traces_validated_against_impl=1)
+        ctx.cover("binary", evaluations=5, traces_validated_against_impl=1)
     finally:
         if p.poll() is None:
             p.kill()
